@@ -86,13 +86,6 @@ def expand(ref, st, top=True):
         if kind == 'SEG':
             out.append(('SEG', name))
         else:
-            # decide the repetition count BEFORE expanding, expand each repetition with the same sub-choices
-            save = (st.nbit, st.nrep)
-            first = _first_member(cref)
-            n = 1
-            if mx != 1 and first is not None and first[1] == 1 and st.nrep < 2:
-                n = st.reps[st.nrep]
-                st.nrep += 1
             body = expand(cref, st, False)
             if not _has_segment(body):
                 if mn < 1:
@@ -100,6 +93,14 @@ def expand(ref, st, top=True):
                 body = _force_first(cref)      # a required group whose members are all optional: emit its first member
                 if not body:
                     continue
+            # the group is repeated only when the first segment it emits may occur once in it: then the recurrence of that
+            # segment is what the property says opens a new repetition
+            n = 1
+            if mx != 1 and body[0][0] == 'SEG' and st.nrep < 2:
+                card = [c[2] for c in cref[1] if c[0] == body[0][1] and c[3] == 'SEG']
+                if card and card[0][1] == 1:
+                    n = st.reps[st.nrep]
+                    st.nrep += 1
             out.append(('GRP', name, body))
             for _ in range(n - 1):
                 out.append(('GRP', name, _clone(body)))
@@ -194,6 +195,16 @@ def check(si, choice, trace=None):
     ok_enc = out == text
     flat = parse_message(text, validation_level=2, find_groups=False).to_er7()
     ok_nogroups = flat == out
+    # the same text under STRICT: group-finding itself must not be what refuses it, and when it is accepted the tree is the same
+    ok_strict = True
+    try:
+        ms = parse_message(text, validation_level=1, find_groups=True)
+        ok_strict = real_tree(ms) == got_tree
+    except Exception as e:
+        if type(e).__name__ == 'OperationNotAllowed' and ('validation_level' in str(e) or 'HL7 version' in str(e)):
+            ok_strict = False
+            if trace is not None:
+                trace.append('STRICT parse raised %s: %s' % (type(e).__name__, e))
     allnames = seg_names(ref)
     # the instance's segment names each occur at a single place in the structure
     unique = all(allnames.count(n) == 1 for n in names)
@@ -209,7 +220,7 @@ def check(si, choice, trace=None):
         trace.append('%s %s choice %d (bits %s, reps %r) unique-names=%s\n  segments %r\n  expected tree %r\n  parsed tree   %r\n  declared=%s flat=%s re-encode=%s find_groups=False same=%s tree=%s validates(structure)=%s' % (
             v, mname, choice, bin(bits), reps, unique, names, [('SEG', 'MSH')] + nodes, got_tree, ok_decl, ok_flat, ok_enc, ok_nogroups,
             ok_tree, ok_valid))
-    return ok_decl and ok_flat and ok_nogroups and ok_tree and ok_valid    # re-encoding == text is C01's subject
+    return ok_decl and ok_flat and ok_nogroups and ok_tree and ok_valid and ok_strict    # re-encoding == text is C01's subject
 
 
 def _is_structural(err, m):
